@@ -349,8 +349,121 @@ func (g *gen) sequence(seq int, maxLen int, engine string) {
 	g.observeAll()
 }
 
+// filterDeltas: ExpireAt - (filter clock) of the compaction-filter probes, in seconds, on both sides of the
+// lazy threshold (48 h) and of "now"
+var filterDeltas = []string{"-176400", "-172801", "-172800", "-172799", "-1", "0", "1", "3600", "172740", "172800", "176400"}
+
+// grid: the deterministic part of every run. One short sequence per (read-modify-write command, offset
+// around the expiry second, value incl. the empty string) on an expired / about-to-expire key, one per
+// (collection type, clear | expire, re-create), and the compaction-filter probes.
+func (g *gen) grid(engines []string) {
+	type rmw struct {
+		t    string
+		name string
+		args []string
+	}
+	setup := map[string][][]string{
+		"k": {{"set", "t:a", "12"}},
+		"h": {{"hmset", "t:a", "f", "12", "g", "v"}},
+		"s": {{"sadd", "t:a", "f", "g"}},
+		"z": {{"zadd", "t:a", "1", "f", "2", "g"}},
+		"l": {{"rpush", "t:a", "v", "12"}},
+	}
+	exp := map[string]string{"k": "expire", "h": "hexpire", "s": "sexpire", "z": "zexpire", "l": "lexpire"}
+	var cmds []rmw
+	for _, v := range []string{"", "x", "12"} {
+		cmds = append(cmds, rmw{"k", "append", []string{"t:a", v}}, rmw{"k", "setrange", []string{"t:a", "1", v}},
+			rmw{"k", "getset", []string{"t:a", v}}, rmw{"k", "setnx", []string{"t:a", v}}, rmw{"k", "set", []string{"t:a", v}},
+			rmw{"h", "hset", []string{"t:a", "m1", v}}, rmw{"h", "hsetnx", []string{"t:a", "f", v}},
+			rmw{"l", "lpush", []string{"t:a", v}}, rmw{"l", "rpush", []string{"t:a", v}})
+	}
+	cmds = append(cmds, rmw{"k", "incr", []string{"t:a"}}, rmw{"k", "incrby", []string{"t:a", "5"}}, rmw{"k", "del", []string{"t:a"}},
+		rmw{"k", "expire", []string{"t:a", "10"}}, rmw{"k", "persist", []string{"t:a"}}, rmw{"k", "mset", []string{"t:a", "", "t:b", "x"}},
+		rmw{"h", "hmset", []string{"t:a", "m1", "", "f", "x"}}, rmw{"h", "hdel", []string{"t:a", "f", "m1"}}, rmw{"h", "hincrby", []string{"t:a", "f", "5"}},
+		rmw{"h", "hclear", []string{"t:a"}}, rmw{"h", "hexpire", []string{"t:a", "10"}}, rmw{"h", "hpersist", []string{"t:a"}},
+		rmw{"s", "sadd", []string{"t:a", "m1", ""}}, rmw{"s", "srem", []string{"t:a", "f"}}, rmw{"s", "spop", []string{"t:a", "1"}},
+		rmw{"s", "sclear", []string{"t:a"}}, rmw{"s", "sexpire", []string{"t:a", "10"}}, rmw{"s", "spersist", []string{"t:a"}},
+		rmw{"z", "zadd", []string{"t:a", "3", "m1"}}, rmw{"z", "zincrby", []string{"t:a", "2", "f"}}, rmw{"z", "zrem", []string{"t:a", "f"}},
+		rmw{"z", "zremrangebyscore", []string{"t:a", "0", "5"}}, rmw{"z", "zclear", []string{"t:a"}}, rmw{"z", "zexpire", []string{"t:a", "10"}},
+		rmw{"z", "zpersist", []string{"t:a"}},
+		rmw{"l", "lpop", []string{"t:a"}}, rmw{"l", "rpop", []string{"t:a"}}, rmw{"l", "lclear", []string{"t:a"}},
+		rmw{"l", "lexpire", []string{"t:a", "10"}}, rmw{"l", "lpersist", []string{"t:a"}})
+	base := -(guard + 100*day) * nsPerSec
+	w := func(ts int64, name string, args ...string) {
+		f := []string{strconv.FormatInt(ts, 10), name}
+		for _, a := range args {
+			f = append(f, hx(a))
+		}
+		g.emit("W", f...)
+		g.emit("X") // the oracle judges every write against the physical state before and after it
+	}
+	n := 0
+	for ci, c := range cmds {
+		for oi, off := range []int64{-1, 0, nsPerSec} {
+			g.seq, g.step = 1000000+n, 0
+			n++
+			g.emit("NEW", "compact", engines[(ci+oi)%len(engines)])
+			for _, st := range setup[c.t] {
+				w(base, st[0], st[1:]...)
+			}
+			w(base+1, exp[c.t], "t:a", "10")
+			e := (base/nsPerSec + 10) * nsPerSec
+			w(e+off, c.name, c.args...)
+			g.emit("O", c.t, hx("t:a"))
+			if c.name == "mset" {
+				g.emit("O", "k", hx("t:b"))
+			}
+			g.emit("A", strconv.FormatInt(e-1, 10), c.t, hx("t:a"))
+			g.emit("A", strconv.FormatInt(e, 10), c.t, hx("t:a"))
+		}
+	}
+	// a re-created collection must not show members of its cleared / expired predecessor
+	for ti, t := range []string{"h", "s", "z", "l"} {
+		for vi, via := range []string{"clear", "expire"} {
+			g.seq, g.step = 1000000+n, 0
+			n++
+			g.emit("NEW", "compact", engines[(ti+vi)%len(engines)])
+			for _, st := range setup[t] {
+				w(base, st[0], st[1:]...)
+			}
+			ts := base + 5
+			if via == "clear" {
+				w(ts, t+"clear", "t:a")
+			} else {
+				w(ts, exp[t], "t:a", "10")
+				ts = (base/nsPerSec + 11) * nsPerSec
+			}
+			g.emit("O", t, hx("t:a"))
+			switch t {
+			case "h":
+				w(ts+7, "hset", "t:a", "m1", "x")
+			case "s":
+				w(ts+7, "sadd", "t:a", "m1")
+			case "z":
+				w(ts+7, "zadd", "t:a", "5", "m1")
+			case "l":
+				w(ts+7, "rpush", "t:a", "x")
+			}
+			g.emit("O", t, hx("t:a"))
+			g.policy = "compact"
+			g.observeAll()
+			g.emit("C", "100")
+			g.emit("X")
+			g.observeAll()
+		}
+	}
+	// compaction-filter probes on both sides of the lazy threshold
+	for _, eng := range engines {
+		g.seq, g.step = 1000000+n, 0
+		n++
+		g.emit("NEW", "compact", eng)
+		g.emit("F", strings.Join(filterDeltas, ","))
+	}
+}
+
 func generate(seed int64, n, maxLen int, engines []string) []string {
 	g := &gen{r: rand.New(rand.NewSource(seed))}
+	g.grid(engines)
 	for i := 0; i < n; i++ {
 		g.sequence(i, maxLen, engines[i%len(engines)])
 	}
